@@ -120,3 +120,29 @@ Lemma s_cg_exits_reachable :
   (let r := ls_get phi_linear (prm_default 128) p0_slope CGDescent 1 in
    ok r = true /\ cg_exit_flags (prm_default 128) p0_slope r = Some [true; false; true; false; true; false; true; false]).
 Proof. vm_compute. repeat split; reflexivity. Qed.
+
+(* ---------- evaluation budget: oracles that (nearly) attain the bound of C07_evaluations_bounded ---------- *)
+Definition p0_zero : probe := mkP true 0 (-1).
+(* the first n-1 trial points are invalid (`*0.3` loop: n evaluations), then f = f0 = 0 with slope -1 for ever: the `*3` loop
+   runs dry (n evaluations) and backtracking never sees a decrease (n evaluations) *)
+Definition phi_flat_after (n : Z) (k : Z) (_ : float) : probe :=
+  if (k <? n - 1)%Z then mkP false nan nan else mkP true 0 (-1).
+
+(* a table-driven (non-deterministic) oracle: the k-th evaluation answers with the k-th entry *)
+Definition answer_kind (i : Z) : probe :=
+  nth (Z.to_nat i)
+      [mkP true 0 (-1); mkP true 1 (-1); mkP true 0 1; mkP true 1 1; mkP true 0 (-0.01); mkP true 0 0.5;
+       mkP true 1 (-0.01); mkP true 1 0.01; mkP true 0 (-3); mkP true 1 (-3); mkP false 0 (-1); mkP true 0 (-0.5);
+       mkP true 0 0.01; mkP true 1 3; mkP true 0 3] (mkP false nan nan).
+Definition phi_table (tab : list Z) (k : Z) (_ : float) : probe := answer_kind (nth (Z.to_nat k) tab 10%Z).
+
+(* found by hill climbing over answer tables with the extracted model (max_iterations = 10) *)
+Definition cg_costly_table : list Z :=
+  [10;10;10;10;10;10;10;10;10;0;0;0;0;0;0;0;0;0;0;0;1;7;13;8;9;7;3;1;1;7;3;12;6;7;2;0;13;8;11;6;3;7;13;7;3;5;14;2;1;7;3;7;
+   1;9;4;8;0;4;0;4;1;8]%Z.
+
+Lemma s_evaluation_bound_witnesses :
+  cnt (rs (ls_get (phi_flat_after 128) (prm_default 128) p0_zero Backtrack 1)) = 384%Z /\
+  cnt (rs (ls_get (phi_flat_after 128) (prm_default 128) p0_zero Lemarechal 1)) = 383%Z /\
+  cnt (rs (ls_get (phi_table cg_costly_table) (prm_default 10) p0_zero CGDescent 1)) = 62%Z.
+Proof. vm_compute. repeat split; reflexivity. Qed.
